@@ -344,7 +344,11 @@ fn validate_fields(input: &Struct, data_type_attrs: &DataTypeAttrs, data_type_at
                         continue;
                     }
 
-                    if let Some(field_attr) = field.attrs.applicable_field_attr(kind, false, &data_type_attr.ty) {
+                    // a fallible conversion uses a fallible member instruction when there is one, an infallible one otherwise
+                    let fallible = data_type_attrs.iter_for_kind_core(kind, true).any(|x| std::ptr::eq(x, *data_type_attr));
+                    let field_attr = if fallible { field.attrs.applicable_field_attr(kind, true, &data_type_attr.ty) } else { None }
+                        .or_else(|| field.attrs.applicable_field_attr(kind, false, &data_type_attr.ty));
+                    if let Some(field_attr) = field_attr {
                         if kind.is_from() {
                             if field_attr.attr.member.is_none() && field_attr.attr.action.is_none() {
                                 errors.insert(format!("Member trait instruction #[{}(...)] for member {} should specify corresponding field name of the {} or an action", field_attr.original_instr, field.member.to_token_stream(), data_type_attr.ty.path), field.member.span());
@@ -384,7 +388,9 @@ fn validate_variant_fields(input: &Variant, data_type_attrs: &DataTypeAttrs, _ty
                         continue;
                     }
 
-                    if let Some(field_attr) = field.attrs.applicable_field_attr(&kind, false, &data_type_attr.core.ty) {
+                    let field_attr = if data_type_attr.fallible { field.attrs.applicable_field_attr(&kind, true, &data_type_attr.core.ty) } else { None }
+                        .or_else(|| field.attrs.applicable_field_attr(&kind, false, &data_type_attr.core.ty));
+                    if let Some(field_attr) = field_attr {
                         if kind == Kind::FromOwned || kind == Kind::FromRef {
                             if field_attr.attr.member.is_none() && field_attr.attr.action.is_none() {
                                 errors.insert(format!("Member trait instruction #[{}(...)] for member {} should specify corresponding field name of the {} or an action", field_attr.original_instr, field.member.to_token_stream(), data_type_attr.core.ty.path), field.member.span());
